@@ -565,3 +565,90 @@ def first_iteration_latches(func: ast.AST) -> List[Tuple[str, str]]:
                     out.append((nm, f"line {s_.lineno}: `{nm}` is computed from this iteration's data ({', '.join(sorted(data_names(v) & (dep - {nm})))}) only while it is still empty "
                                     f"(`if {ast.unparse(iff.test)}`) and reused by every later iteration of `for {ast.unparse(loop.target)} in {ast.unparse(loop.iter)[:40]}`"))
     return out
+
+
+def cross_iteration_flows(func: ast.AST) -> List[Tuple[str, str]]:
+    """`for` loops in which a container created BEFORE the loop is filled with values computed from the loop's own data and is also
+    READ inside the loop for something other than bookkeeping: the value read in iteration n was produced by an earlier iteration, so
+    the per-iteration result depends on the iterations before it (e.g. an allow-list of names remembered from the first rank).
+    Bookkeeping reads are: membership tests, being the receiver of a nested store / in-place accumulation (C[a][b] = v, C[a].append(v))
+    and the final use after the loop.  Returns (container, description)."""
+    out = []
+    pre_defs = {}
+    for t, v, st in assignments(func, nested=False):
+        if isinstance(t, ast.Name) and (isinstance(v, (ast.Dict, ast.List, ast.Set)) or (isinstance(v, ast.Call) and call_name(v) in ("dict", "list", "set", "defaultdict", "collections.defaultdict", "OrderedDict"))):
+            pre_defs.setdefault(t.id, st.lineno)
+    for loop in [n for n in walk_no_nested(func) if isinstance(n, ast.For)]:
+        tvars = {x.id for x in ast.walk(loop.target) if isinstance(x, ast.Name)}
+        if not tvars:
+            continue
+        it_txt = ast.unparse(loop.iter)
+        if not ("rank" in tvars or "traces" in it_txt or "ranks" in it_txt):
+            continue              # only loops over ranks: sweeps over events legitimately carry state from row to row
+        # names depending on the loop variables
+        dep = set(tvars)
+        body_assigns = [(t, v, s_) for st in loop.body for t, v, s_ in assignments(st)]
+        changed = True
+        while changed:
+            changed = False
+            for t, v, s_ in body_assigns:
+                if {x.id for x in ast.walk(v) if isinstance(x, ast.Name)} & dep:
+                    for x in ast.walk(t):
+                        if isinstance(x, ast.Name) and isinstance(x.ctx, ast.Store) and x.id not in dep:
+                            dep.add(x.id)
+                            changed = True
+        parent = {}
+        for n in ast.walk(loop):
+            for ch in ast.iter_child_nodes(n):
+                parent[id(ch)] = n
+        for cname, line in pre_defs.items():
+            if line >= loop.lineno or cname in tvars:
+                continue
+            # stores of loop-dependent data into the container (top-level key only: C[k] = v)
+            stores = [s_ for t, v, s_ in body_assigns if isinstance(t, ast.Subscript) and isinstance(t.value, ast.Name) and t.value.id == cname
+                      and ({x.id for x in ast.walk(v) if isinstance(x, ast.Name)} & dep)]
+            if not stores:
+                continue
+            reads = []
+            for n in ast.walk(loop):
+                if isinstance(n, ast.Name) and n.id == cname and isinstance(n.ctx, ast.Load):
+                    p = parent.get(id(n))
+                    # membership test
+                    if isinstance(p, ast.Compare) and any(isinstance(o, (ast.In, ast.NotIn)) for o in p.ops) and any(n is c_ for c_ in p.comparators):
+                        continue
+                    # C[k] ... as a store target, or C[k][j] = v / C[k].append(v)
+                    if isinstance(p, ast.Subscript) and p.value is n:
+                        gp = parent.get(id(p))
+                        if isinstance(p.ctx, ast.Store):
+                            continue
+                        if isinstance(gp, ast.Subscript) and isinstance(gp.ctx, ast.Store) and gp.value is p:
+                            continue
+                        if isinstance(gp, ast.Attribute) and gp.attr in _MUT_METHODS and isinstance(parent.get(id(gp)), ast.Call):
+                            continue
+                        reads.append(p)
+                        continue
+                    if isinstance(p, ast.Attribute) and p.value is n:
+                        if p.attr in _MUT_METHODS or p.attr in ("keys",):
+                            continue
+                        if p.attr in ("get", "items", "values", "pop", "copy", "__getitem__"):
+                            reads.append(p)
+                            continue
+                    # passed whole to a call / returned inside the loop: a read of everything stored so far
+                    if isinstance(p, (ast.Call, ast.keyword, ast.Return)):
+                        reads.append(n)
+            # a read under the key that was stored EARLIER IN THE SAME ITERATION is this iteration's own value
+            store_keys = {ast.unparse(t.slice): s_.lineno for t, v, s_ in body_assigns if isinstance(t, ast.Subscript) and isinstance(t.value, ast.Name) and t.value.id == cname and s_ in stores}
+
+            def read_key(r_):
+                if isinstance(r_, ast.Subscript):
+                    return ast.unparse(r_.slice)
+                pc = parent.get(id(r_))
+                if isinstance(r_, ast.Attribute) and r_.attr in ("get", "pop") and isinstance(pc, ast.Call) and pc.args:
+                    return ast.unparse(pc.args[0])
+                return None
+            reads = [r_ for r_ in reads if not (read_key(r_) in store_keys and store_keys[read_key(r_)] < r_.lineno)]
+            if reads:
+                r0 = reads[0]
+                out.append((cname, f"`{cname}` (created at line {line}) is filled from this iteration's data (line {stores[0].lineno}) and read at line {r0.lineno} "
+                                   f"(`{' '.join(ast.unparse(parent.get(id(r0), r0)).split())[:70]}`) inside `for {ast.unparse(loop.target)} in {ast.unparse(loop.iter)[:40]}`"))
+    return out
